@@ -21,6 +21,7 @@ import (
 	"io"
 	"net"
 	"strconv"
+	"sync"
 
 	"github.com/cybergarage/go-logger/log"
 	"github.com/cybergarage/go-redis/redis/auth"
@@ -42,6 +43,9 @@ type Server struct {
 	systemCommandHandler SystemCommandHandler
 	userCommandHandler   UserCommandHandler
 	commandExecutors     Executors
+	// commandMutex serializes command execution: like Redis, commands are executed one at a time,
+	// so that commands composed of several handler operations (INCR, APPEND, MSETNX, ...) are atomic.
+	commandMutex sync.Mutex
 }
 
 // NewServer returns a new server instance.
@@ -319,7 +323,9 @@ func (server *Server) receive(conn net.Conn, tlsState *tls.ConnectionState) erro
 		var resMsg *Message
 		var reqErr error
 
+		server.commandMutex.Lock()
 		resMsg, reqErr = server.handleMessage(handlerConn, reqMsg)
+		server.commandMutex.Unlock()
 		if reqErr != nil {
 			if !errors.Is(reqErr, ErrQuit) {
 				resMsg = NewErrorMessage(reqErr)
